@@ -895,3 +895,184 @@ package kcache
   loop 1 inv [retry-channel-is-private] (and (not (= {retrych} vnil)) (not (= {retrych} {w.resetch})))
   loop 1 inv [has-closed-nothing] (forall ((x V)) (not (select $closed x)))
 @*/
+
+/*@ immutable kcache._subscription.readych kcache._subscription.outch kcache._subscription.inch kcache._subscription.cache kcache._subscription.lc
+  kcache.publisher.parent kcache.publisher.lc
+  kcache.filterSubscription.parent kcache.filterSubscription.readych kcache.filterSubscription.outch kcache.filterSubscription.cache kcache.filterSubscription.lc
+  kcache.filterController.parent kcache.filterController.subscription
+  kcache.controller.readych kcache.controller.cache kcache.controller.publisher kcache.controller.lc
+@*/
+
+/*@ theory wiring
+;; theory actors
+(declare-fun |F!kcache._subscription!readych| (V) V)
+(declare-fun |F!kcache._subscription!outch| (V) V)
+(declare-fun |F!kcache._subscription!inch| (V) V)
+(declare-fun |F!kcache._subscription!cache| (V) V)
+(declare-fun |F!kcache._subscription!lc| (V) V)
+(declare-fun |F!kcache.publisher!parent| (V) V)
+(declare-fun |F!kcache.publisher!lc| (V) V)
+(declare-fun |F!kcache.filterSubscription!parent| (V) V)
+(declare-fun |F!kcache.filterSubscription!readych| (V) V)
+(declare-fun |F!kcache.filterSubscription!outch| (V) V)
+(declare-fun |F!kcache.filterSubscription!cache| (V) V)
+(declare-fun |F!kcache.filterSubscription!lc| (V) V)
+(declare-fun |F!kcache.filterController!parent| (V) V)
+(declare-fun |F!kcache.filterController!subscription| (V) V)
+(declare-fun |F!kcache.controller!readych| (V) V)
+(declare-fun |F!kcache.controller!cache| (V) V)
+(declare-fun |F!kcache.controller!publisher| (V) V)
+(declare-fun |F!kcache.controller!lc| (V) V)
+; what Ready() / Events() / Done() / Cache() of the library's own implementations are (C08, C11):
+(assert (forall ((x V)) (! (=> (= (dyntype x) |ty!*kcache._subscription|)
+   (and (= (sub-ready x) (|F!kcache._subscription!readych| x)) (= (sub-events x) (|F!kcache._subscription!outch| x))
+        (= (sub-cache x) (|F!kcache._subscription!cache| x)) (= (sub-done x) (lc-done (|F!kcache._subscription!lc| x))))) :pattern ((dyntype x)))))
+(assert (forall ((x V)) (! (=> (= (dyntype x) |ty!*kcache.publisher|)
+   (and (= (sub-ready x) (sub-ready (|F!kcache.publisher!parent| x))) (= (sub-cache x) (sub-cache (|F!kcache.publisher!parent| x)))
+        (= (sub-done x) (lc-done (|F!kcache.publisher!lc| x))))) :pattern ((dyntype x)))))
+(assert (forall ((x V)) (! (=> (= (dyntype x) |ty!*kcache.filterSubscription|)
+   (and (= (sub-ready x) (|F!kcache.filterSubscription!readych| x)) (= (sub-events x) (|F!kcache.filterSubscription!outch| x))
+        (= (sub-cache x) (|F!kcache.filterSubscription!cache| x)) (= (sub-done x) (lc-done (|F!kcache.filterSubscription!lc| x))))) :pattern ((dyntype x)))))
+(assert (forall ((x V)) (! (=> (= (dyntype x) |ty!*kcache.filterController|)
+   (and (= (sub-ready x) (sub-ready (|F!kcache.filterController!parent| x))) (= (sub-cache x) (sub-cache (|F!kcache.filterController!parent| x)))
+        (= (sub-done x) (sub-done (|F!kcache.filterController!parent| x))))) :pattern ((dyntype x)))))
+(assert (forall ((x V)) (! (=> (= (dyntype x) |ty!*kcache.controller|)
+   (and (= (sub-ready x) (|F!kcache.controller!readych| x)) (= (sub-cache x) (|F!kcache.controller!cache| x))
+        (= (sub-done x) (lc-done (|F!kcache.controller!lc| x))))) :pattern ((dyntype x)))))
+@*/
+
+/*@ iface kcache.Controller.Done
+  theory actors
+  ensures (and (= result (sub-done $recv)) (not (= result vnil)))
+@*/
+/*@ iface kcache.Controller.Close
+@*/
+/*@ iface kcache.Controller.Error
+@*/
+/*@ iface kcache.Publisher.Subscribe
+  ensures (=> (= result1 vnil) (not (= result0 vnil)))
+@*/
+/*@ iface kcache.Publisher.SubscribeWithFilter
+  ensures (=> (= result1 vnil) (not (= result0 vnil)))
+@*/
+/*@ iface kcache.Publisher.SubscribeForFilter
+  ensures (=> (= result1 vnil) (not (= result0 vnil)))
+@*/
+/*@ iface kcache.Publisher.Clone
+  ensures (=> (= result1 vnil) (not (= result0 vnil)))
+@*/
+/*@ iface kcache.Publisher.CloneWithFilter
+  ensures (=> (= result1 vnil) (not (= result0 vnil)))
+@*/
+/*@ iface kcache.Publisher.CloneForFilter
+  ensures (=> (= result1 vnil) (not (= result0 vnil)))
+@*/
+/*@ iface kcache.FilterSubscription.Refilter
+  requires [filter-nonnil] (not (= $0 vnil))
+@*/
+/*@ iface kcache.FilterController.Refilter
+  requires [filter-nonnil] (not (= $0 vnil))
+@*/
+
+/*@ func (*kcache._subscription).Ready
+  props C08 C20
+  theory wiring
+  implements kcache.CacheController.Ready
+  requires (and (not (= {s} vnil)) (not (= {s.readych} vnil)))
+@*/
+/*@ func (*kcache._subscription).Events
+  props C05 C11
+  theory wiring
+  implements kcache.Subscription.Events
+  requires (and (not (= {s} vnil)) (not (= {s.outch} vnil)))
+@*/
+/*@ func (*kcache._subscription).Cache
+  props C05
+  theory wiring
+  implements kcache.CacheController.Cache
+  requires (and (not (= {s} vnil)) (not (= {s.cache} vnil)))
+@*/
+/*@ func (*kcache._subscription).Done
+  props C11
+  theory wiring
+  implements kcache.Subscription.Done
+  requires (and (not (= {s} vnil)) (not (= {s.lc} vnil)))
+@*/
+/*@ func (*kcache.publisher).Ready
+  props C08
+  theory wiring
+  implements kcache.CacheController.Ready
+  requires (and (not (= {s} vnil)) (not (= {s.parent} vnil)))
+@*/
+/*@ func (*kcache.publisher).Cache
+  props C08
+  theory wiring
+  implements kcache.CacheController.Cache
+  requires (and (not (= {s} vnil)) (not (= {s.parent} vnil)))
+@*/
+/*@ func (*kcache.publisher).Done
+  props C11
+  theory wiring
+  implements kcache.Controller.Done
+  requires (and (not (= {s} vnil)) (not (= {s.lc} vnil)))
+@*/
+/*@ func (*kcache.filterSubscription).Ready
+  props C08
+  theory wiring
+  implements kcache.CacheController.Ready
+  requires (and (not (= {s} vnil)) (not (= {s.readych} vnil)))
+@*/
+/*@ func (*kcache.filterSubscription).Events
+  props C08 C11
+  theory wiring
+  implements kcache.Subscription.Events
+  requires (and (not (= {s} vnil)) (not (= {s.outch} vnil)))
+@*/
+/*@ func (*kcache.filterSubscription).Cache
+  props C06
+  theory wiring
+  implements kcache.CacheController.Cache
+  requires (and (not (= {s} vnil)) (not (= {s.cache} vnil)))
+@*/
+/*@ func (*kcache.filterSubscription).Done
+  props C11
+  theory wiring
+  implements kcache.Subscription.Done
+  requires (and (not (= {s} vnil)) (not (= {s.lc} vnil)))
+@*/
+/*@ func (*kcache.filterController).Ready
+  props C08
+  theory wiring
+  implements kcache.CacheController.Ready
+  requires (and (not (= {c} vnil)) (not (= {c.parent} vnil)))
+@*/
+/*@ func (*kcache.filterController).Cache
+  props C08
+  theory wiring
+  implements kcache.CacheController.Cache
+  requires (and (not (= {c} vnil)) (not (= {c.parent} vnil)))
+@*/
+/*@ func (*kcache.filterController).Done
+  props C11
+  theory wiring
+  implements kcache.Controller.Done
+  requires (and (not (= {c} vnil)) (not (= {c.parent} vnil)))
+@*/
+/*@ func (*kcache.controller).Ready
+  props C08
+  theory wiring
+  implements kcache.CacheController.Ready
+  requires (and (not (= {c} vnil)) (not (= {c.readych} vnil)))
+@*/
+/*@ func (*kcache.controller).Cache
+  props C08
+  theory wiring
+  implements kcache.CacheController.Cache
+  requires (and (not (= {c} vnil)) (not (= {c.cache} vnil)))
+@*/
+/*@ func (*kcache.controller).Done
+  props C11
+  theory wiring
+  implements kcache.Controller.Done
+  requires (and (not (= {c} vnil)) (not (= {c.lc} vnil)))
+@*/
